@@ -324,3 +324,63 @@ theorem highMask_val (len : Nat) (hl : len < 16) (h0 : 0 < len) :
     _ < W64 := by rw [hw]; omega
 
 end Asm
+
+namespace Asm
+open Kern
+
+theorem cntBlk_le (p : UInt8 → Bool) (mem : Mem) (a : Nat) : ∀ (n lo : Nat), cntBlk p mem a lo n ≤ n
+  | 0, _ => Nat.le_refl _
+  | n+1, lo => by
+    simp only [cntBlk]
+    have := cntBlk_le p mem a n (lo + 1)
+    split <;> omega
+
+/-- `PMOVMSKB; POPCNTL` on a full 16-lane comparison result counts the matches of the block -/
+theorem popcnt_full (F : Nat → UInt8) (p : UInt8 → Bool) (mem : Mem) (a : Nat)
+    (hF : ∀ j, decide (F j ≥ 0x80) = p (mem (a + j))) :
+    cntBits (mask F 16 % W32) 0 32 = cntBlk p mem a 0 16 := by
+  rw [mask_mod]
+  have e : (32 : Nat) = 16 + 16 := rfl
+  rw [e, cntBits_append]
+  have h1 : cntBits (mask F 16) 0 16 = cntBlk p mem a 0 16 := by
+    apply cntBits_eq_cntBlk
+    intro i _ hi
+    rw [mask_testBit, ← hF i]
+    have : i < 16 := by omega
+    simp [this]
+  have h2 : cntBits (mask F 16) (0 + 16) 16 = 0 := by
+    apply cntBits_zero
+    intro i hi _
+    rw [mask_testBit]
+    have : ¬ i < 16 := by omega
+    simp [this]
+  rw [h1, h2]; omega
+
+/-- the high mask with the shift count as the counting loops compute it (`CX = 16 − rem`) -/
+theorem highMask_val' (c : Nat) (hc : c ≤ 16) :
+    (if 65535 % W64 < 2 ^ 63 then (65535 % W64) >>> (c % 64) else W64 - 1 - (W64 - 1 - 65535 % W64) >>> (c % 64)) <<< (c % 64) % W64 =
+      (65535 >>> c) <<< c := by
+  have hw : W64 = 2 ^ 64 := rfl
+  have e1 : c % 64 = c := Nat.mod_eq_of_lt (by omega)
+  have e2 : (65535 : Nat) % W64 = 65535 := by decide
+  rw [e1, e2, if_pos (by omega)]
+  apply Nat.mod_eq_of_lt
+  have h1 : 65535 >>> c ≤ 65535 := Nat.shiftRight_le _ _
+  rw [Nat.shiftLeft_eq]
+  have h2 : 2 ^ c ≤ 2 ^ 16 := Nat.pow_le_pow_right (by omega) hc
+  calc 65535 >>> c * 2 ^ c ≤ 65535 * 2 ^ 16 := Nat.mul_le_mul h1 h2
+    _ < W64 := by rw [hw]; omega
+
+theorem and15 (n : Nat) : n &&& 15 = n % 16 := by
+  have : (15 : Nat) = 2 ^ 4 - 1 := rfl
+  rw [this, Nat.and_two_pow_sub_one_eq_mod]
+
+theorem cntLoop_succ16 (p : UInt8 → Bool) (mem : Mem) (base len n di acc : Nat) :
+    cntLoop ⟨16, 16, 16⟩ p mem base len (n + 1) di acc =
+      if di ≤ len - 16 then
+        ((cntLoop ⟨16, 16, 16⟩ p mem base len n (di + 16) (acc + cntBlk p mem (base + di) 0 16)).1,
+          (base + di, 16) :: (cntLoop ⟨16, 16, 16⟩ p mem base len n (di + 16) (acc + cntBlk p mem (base + di) 0 16)).2)
+      else if len % 16 = 0 then (acc, [])
+      else (acc + cntBlk p mem (base + (len - 16)) (16 - len % 16) (len % 16), [(base + (len - 16), 16)]) := rfl
+
+end Asm
